@@ -19,7 +19,7 @@ RULE = ('Generated: forests as in C03 (three-level shapes {species, its subspeci
         'lineage taxon with threshold >= d; consensus = most specific if the matched taxa form a chain, else LCA of the most specific '
         'ones, else none + failed; for every order: same prediction, comparable with every matched taxon, "others" = matched taxa strictly '
         'below the prediction, a warning naming exactly those iff that set is non-empty, primary match at/below the prediction with the '
-        'minimum distance among such genomes. One evaluation = one (case, order); non-trivial = >= 2 distinct matched taxa; distinct '
+        'minimum distance among such genomes. Also end to end (1 case in 25): a generated database materialised with two different signature-file orders and queried in strict mode must give the model consensus and identical predictions. One evaluation = one (case, order); non-trivial = >= 2 distinct matched taxa; distinct '
         'by case hash x order.')
 ASSUMPTIONS = ['distance/threshold comparison is exact in binary64 (NumPy 1.26 semantics for np.float32 <= float)',
                'in the no-common-ancestor case only prediction None / failed flag / error / no primary match are asserted (statement is silent on the rest)']
@@ -27,10 +27,71 @@ DEADLINE_S = {'quick': 240, 'thorough': 2400}
 
 
 def budget(tier):
-	return {'quick': 12000, 'thorough': 100000}[tier]
+	return {'quick': 8000, 'thorough': 100000}[tier]
+
+
+def run_world_strict(case, ctx):
+	"""End to end: the same database with two different signature-file (= reference) orders, queried in strict mode."""
+	import numpy as np
+	from gambit.query import query
+	from vlib import world as Wd
+	preds = []
+	classes = set(['world_strict'])
+	nt = False
+	for variant, seed in (('a', case['world'].get('sig_perm_seed')), ('b', case['perm2'])):
+		w = dict(case['world'])
+		w['sig_perm_seed'] = seed
+		W = Wd.get_world(ctx, w, 'c10world')
+		try:
+			db = W.load_db()
+		except Exception as e:
+			raise Violation('exception', f'load_from_dir raised {type(e).__name__}: {e}', case)
+		try:
+			qs = [np.array(x, dtype=W.dtype) for x in W.query_sigs]
+			try:
+				res = query(db, qs, classify_strict=True)
+			except Exception as e:
+				raise Violation('exception', f'query(strict) raised {type(e).__name__}: {e}', case)
+			out = []
+			F = W.forest
+			for qi, item in enumerate(res.items):
+				cr = item.classifier_result
+				matched = [F.match(W.w['genomes'][j]['taxon'], W.dist(qi, j)) for j in range(len(W.ref_sigs))]
+				M = {m for m in matched if m is not None}
+				cons, others, ok = F.consensus(M)
+				got = None if cr.predicted_taxon is None else cr.predicted_taxon.key
+				want = None if cons is None else f'world/t{cons}'
+				if got != want or cr.success != ok or bool(cr.error) != (not ok):
+					raise Violation('world_consensus', f'variant {variant} (reference order {W.ref_order}) query {qi}: predicted {got} success={cr.success}, '
+					                f'expected {want} success={ok}; matched taxa per genome {matched}', case)
+				if ok and cons is not None:
+					pm = cr.primary_match
+					jj = [f['key'] for f in W.genome_fields].index(pm.genome.key) if pm is not None else None
+					cand = [W.dist(qi, j) for j in range(len(matched)) if matched[j] is not None and F.is_ancestor_or_self(cons, matched[j])]
+					if pm is None or matched[jj] is None or not F.is_ancestor_or_self(cons, matched[jj]) or float(pm.distance) != min(cand):
+						raise Violation('world_primary', f'variant {variant} query {qi}: primary match genome {jj} at {None if pm is None else float(pm.distance)!r} '
+						                f'is not a nearest genome at/below the prediction {cons}', case)
+				out.append((got, cr.success, sorted(cr.warnings)[:0]))
+				if len(M) >= 2:
+					nt = True
+				if others:
+					classes.add('world_fork')
+				if not ok:
+					classes.add('world_no_common_ancestor')
+			preds.append(out)
+		finally:
+			try:
+				db.signatures.close(); db.session.close(); db.session.get_bind().dispose()
+			except Exception:
+				pass
+	if preds[0] != preds[1]:
+		raise Violation('world_order_dependent', f'strict predictions differ between two reference orders of the same database: {preds[0]} vs {preds[1]}', case)
+	return {'evals': 2, 'nontrivial_count': 2 if nt else 0, 'nontrivial': nt, 'classes': sorted(classes)}
 
 
 def run_case(case, ctx):
+	if case['kind'] == 'world_strict':
+		return run_world_strict(case, ctx)
 	import numpy as np
 	from gambit.classify import classify, consensus_taxon
 
@@ -157,6 +218,12 @@ def run_case(case, ctx):
 
 @st.composite
 def gen_case(draw, tier):
+	if draw(st.integers(0, 24)) == 24:
+		from vlib import world as Wd
+		wthr = st.one_of(st.just({'kind': 'none'}), st.floats(0.5, 1).map(lambda v: {'kind': 'val', 'v': v}), st.just({'kind': 'val', 'v': 1.0}),
+		                 st.builds(lambda i, k: {'kind': k, 'i': i}, st.integers(0, 60), st.sampled_from(['dist', 'dist_up', 'dist_down32'])))
+		return {'kind': 'world_strict', 'world': draw(Wd.world(max_refs=7, min_refs=2, max_queries=3, nasty_names=False, thr=wthr)),
+		        'perm2': draw(st.integers(1001, 2000))}
 	thr = st.one_of(
 		st.just({'kind': 'none'}),
 		st.floats(0.3, 1).map(lambda v: {'kind': 'val', 'v': v}),
